@@ -348,7 +348,10 @@ def _separate_variables(variables: dict):
 
         # identify variable type and data type
         default_vals = vinfo.copy() if type(vinfo) is dict else _parse_defaults(vinfo)
-        yield vname, default_vals['vtype'], default_vals['dtype'], default_vals['shape'], default_vals['value']
+        shape = default_vals['shape']
+        if isinstance(shape, list):
+            shape = tuple(shape)  # e.g. a definition dict that went through a YAML file; shapes must be hashable
+        yield vname, default_vals['vtype'], default_vals['dtype'], shape, default_vals['value']
 
 
 def _get_variable_info(expr: Union[str, int, float], value: Union[int, complex, float]) -> tuple:
